@@ -454,6 +454,20 @@ func (f *Fn) followedBy(r *Rule, a, y *Sites, exits *Sites, label string, succes
 				return false
 			}
 			start = []int{e[1]}
+			// the other edge of a compound test (`err == nil && other`) is taken by successful
+			// executions too unless it implies the failure: then it is a start as well
+			if cv := f.G.Vs[e[0]]; cv.IsCond {
+				if cur, res := f.ResultCond(s); cur != nil && cur.ID == cv.ID && res != nil {
+					otherVal := e[1] != cv.TrueSucc
+					otherSucc := cv.TrueSucc
+					if !otherVal {
+						otherSucc = cv.FalseSucc
+					}
+					if _, knowsFail := f.edgeKnows(cv.Cond, otherVal, res); !knowsFail {
+						start = append(start, otherSucc)
+					}
+				}
+			}
 		}
 		targets := []int{f.G.Exit}
 		if exits != nil {
